@@ -72,7 +72,7 @@ class Life:
             lines = ["pass"]
         return "\n".join(lines) + "\n", line2gen
 
-    async def live_exec(self, env, c, body):
+    async def exec_src(self, env, c, src):
         from custom_components.pyscript.eval import AstEval
         from custom_components.pyscript.function import Function
         from custom_components.pyscript.global_ctx import GlobalContextMgr
@@ -80,7 +80,6 @@ class Life:
         gctx = GlobalContextMgr.get(ctx_name(c))
         if gctx is None:
             return "noctx"
-        src, _ = self.body_src(body)
         ast_ctx = AstEval(ctx_name(c), gctx)
         Function.install_ast_funcs(ast_ctx)
         ast_ctx.parse(src)
@@ -92,6 +91,29 @@ class Life:
         del ast_ctx
         await env.settle()
         return err
+
+    async def live_exec(self, env, c, body):
+        """execute the statements in the live context c; a `defrt` statement is performed by a running service function
+        (a maker service defined for the purpose, called through HA, then deleted) which binds the new function with `global`"""
+        errs = []
+        for st in body:
+            if st["s"] == "defrt":
+                self.gen += 1
+                g = self.gen
+                inner = ["    " + ln for ln in def_src(st, g)]
+                src = "\n".join([f"@service('pvm.mk{g}')", f"def _mk{g}(**kw):", f"    global fn{st['fn']}"] + inner) + "\n"
+                errs.append(await self.exec_src(env, c, src))
+                try:
+                    await env.hass.services.async_call("pvm", f"mk{g}", {}, blocking=True)
+                except Exception as exc:  # pylint: disable=broad-except
+                    errs.append("maker:" + type(exc).__name__)
+                await env.settle()
+                errs.append(await self.exec_src(env, c, f"del _mk{g}\n"))
+            else:
+                src, _ = self.body_src([st])
+                errs.append(await self.exec_src(env, c, src))
+        errs = [e for e in errs if e]
+        return errs[0] if errs else None
 
     def oracle(self, maps):
         """observed start order of delayed decorator managers since the last call, as generations"""
@@ -219,11 +241,36 @@ def canon_kw(kw):
 # outgoing calls
 # ------------------------------------------------------------------------------------------------
 OUT_SRC = '''
+def _tgt(kw):
+    d = {}
+    for k, v in kw.items():
+        if k == "trigger_type" and v == "service":
+            continue
+        if k == "context" and type(v).__name__ == "Context":
+            continue
+        d[k] = v
+    event.fire("pv_tgt", data=d)
+
+@service("pvt.pnone", supports_response="none")
+def t_pnone(**kw):
+    _tgt(kw)
+    return {"r": 1}
+
+@service("pvt.popt", supports_response="optional")
+def t_popt(**kw):
+    _tgt(kw)
+    return {"r": 1}
+
+@service("pvt.ponly", supports_response="only")
+def t_ponly(**kw):
+    _tgt(kw)
+    return {"r": 1}
+
 @service("pvs.run", supports_response="optional")
 def run_code(code=None, **kw):
     try:
         r = eval(code)
-        return {"ok": 1}
+        return {"ok": 1, "got": 0 if r is None else 1}
     except Exception as e:
         return {"exc": type(e).__name__}
 
@@ -231,7 +278,7 @@ def run_code(code=None, **kw):
 def go_code(code=None, **kw):
     try:
         r = eval(code)
-        event.fire("pv_done", ok=1)
+        event.fire("pv_done", ok=1, got=0 if r is None else 1)
     except Exception as e:
         event.fire("pv_done", exc=type(e).__name__)
 '''
@@ -307,7 +354,7 @@ async def run_out(cases):
                     c = cases[i]
                     kws = ", ".join(f"{kw_name(k)}={kw_expr(ty, v)}" for k, ty, v in c["kws"])
                     pos = ", ".join(str(100 + j) for j in range(c["nargs"]))
-                    tgt = c["target"]
+                    tgt = ("p" if c.get("tkind") == "ps" else "") + c["target"]
                     if c["site"] == "call":
                         code = f"service.call('pvt', '{tgt}'{', ' + kws if kws else ''})"
                     elif c["site"] == "name":
@@ -320,13 +367,20 @@ async def run_out(cases):
                     if c["via"] == "service":
                         r = await env.hass.services.async_call("pvs", "run", {"code": code}, blocking=True, return_response=True)
                         exc = (r or {}).get("exc")
+                        got = (r or {}).get("got")
                     else:
                         env.hass.bus.async_fire("pv_go", {"code": code})
                         await env.settle()
                         done = [e[2] for e in env.events[n0:] if e[1] == "pv_done"]
                         exc = done[0].get("exc") if done else "nodone"
+                        got = done[0].get("got") if done else None
                     await env.settle()
-                    results.append((i, {"code": code, "exc": exc, "seen": [canon_seen(s) for s in seen], "passed": list(passed)}))
+                    if c.get("tkind") == "ps":   # a pyscript @service function is the target: it reports through an event
+                        rr = bool(passed and passed[-1]["kw"].get("return_response") is True)
+                        seen_c = [canon_seen({"data": e[2]["data"], "rr": rr}) for e in env.events[n0:] if e[1] == "pv_tgt"]
+                    else:
+                        seen_c = [canon_seen(s) for s in seen]
+                    results.append((i, {"code": code, "exc": exc, "got": got, "seen": seen_c, "passed": list(passed)}))
     results.sort(key=lambda p: p[0])
     return [r for _i, r in results]
 
